@@ -2,7 +2,8 @@
    (Extracted.indexed_typed, regenerated from index/indexer.rs on every run), the refutation
    witness for the untyped set, and examples showing the hypotheses are satisfiable. *)
 From Verif.Base Require Import Tactics.
-From Verif.C01 Require Import Model Extracted ProofsNames ProofsRead ProofsPipe.
+From Verif.C06 Require Model.
+From Verif.C01 Require Import Model ModelTree Extracted ProofsNames ProofsRead ProofsPipe ProofsTree ProofsTreeBS ProofsTime ProofsFile.
 Local Open Scope N_scope.
 
 (* Holds by computation only while the source keeps a typed set; with an untyped set this
@@ -73,3 +74,58 @@ Proof. vm_compute. repeat split; reflexivity. Qed.
 
 Example ex_partition_point : partition_point (fun i => Nat.ltb i 3) 7 = 3%nat.
 Proof. vm_compute. reflexivity. Qed.
+
+(* ---- path lookup as the source does it now (Extracted.lookup_*: regenerated from blob/tree.rs).
+   Checks by computation while the lookup is one of the proved variants (a scan); only a
+   binary search on the escaped names (seeded change C01-2) makes `lookup_proved2` false. *)
+Lemma node_from_path_finds_listed_lemma : forall R fuel root path n, wf_repo_sorted R ->
+  In (path, n) (ls fuel R root) ->
+  node_from_path lookup_binary_search lookup_compares_stored R root path = Some n.
+Proof. apply node_from_path_finds_listed_gen2. reflexivity. Qed.
+
+(* the per-component step of find_nodes_from_path is the same lookup *)
+Lemma find_nodes_finds_listed_lemma : forall R fuel root path n, wf_repo_sorted R ->
+  In (path, n) (ls fuel R root) ->
+  node_from_path find_nodes_binary_search find_nodes_compares_stored R root path = Some n.
+Proof. apply node_from_path_finds_listed_gen2. reflexivity. Qed.
+
+(* ---- times as the source converts them now (Extracted.restore_time_direct from set_times) *)
+Lemma mtime_roundtrip_current_code_lemma : forall s n, (0 <= n < NS)%Z -> (JIFF_MIN <= s)%Z -> (s <= JIFF_MAX)%Z ->
+  exists j, capture (s, n) = Some j /\ restore_time restore_time_direct j = (s, n).
+Proof.
+  assert (E : restore_time_direct = false) by reflexivity. rewrite E. exact mtime_roundtrip_lemma.
+Qed.
+
+(* ---- source bytes -> read-back bytes, with the indexer the source has now *)
+Lemma backup_file_readback_rabin_lemma (H : bytes -> N) : forall md P avg mn mx hint src sched evs,
+  Verif.C06.Model.rabin_accepts avg mn mx = true ->
+  Consistent (added evs) -> complete (run indexed_typed evs) = true ->
+  exists cs, Verif.C06.Model.chunks_impl md (Verif.C06.Model.Build_cparams P avg mn mx) hint src sched = Verif.C06.Model.Ok cs /\
+    ((forall c, In c cs -> In (EAdd Data (H c) c) evs) ->
+     exists blobs, read_blobs (run indexed_typed evs) (map H cs) = Some blobs /\ reads_back blobs src).
+Proof.
+  intros md P avg mn mx hint src sched evs Hacc. apply source_to_readback_rabin_gen; [assumption|].
+  intro E. unfold indexed_typed in E. discriminate E.
+Qed.
+
+Lemma backup_file_readback_fixed_lemma (H : bytes -> N) : forall size hint src sched evs,
+  Verif.C06.Model.fixed_accepts size = true ->
+  Consistent (added evs) -> complete (run indexed_typed evs) = true ->
+  exists cs, Verif.C06.Model.fixed_impl size hint src sched = Some cs /\
+    ((forall c, In c cs -> In (EAdd Data (H c) c) evs) ->
+     exists blobs, read_blobs (run indexed_typed evs) (map H cs) = Some blobs /\ reads_back blobs src).
+Proof.
+  intros size hint src sched evs Hacc. apply source_to_readback_fixed_gen; [assumption|].
+  intro E. unfold indexed_typed in E. discriminate E.
+Qed.
+
+(* hypotheses are satisfiable: a two-chunk file through the data packer and back *)
+Example ex_file_readback :
+  let H := fun c : bytes => match c with [] => 0 | b :: _ => b + 1 end in
+  let cs := [[1; 2; 3]; [7; 8]] in
+  let evs := [EAdd Data (H [1; 2; 3]) [1; 2; 3]; EAdd Data (H [7; 8]) [7; 8]; EFilter Data; EFilter Data;
+              EPack Data; EPack Data; EFlush Data; EWrite Data; EIndex Data] in
+  consistent_b (added evs) = true /\ complete (run indexed_typed evs) = true /\
+  read_blobs (run indexed_typed evs) (map H cs) = Some cs /\ dump cs = [1; 2; 3; 7; 8] /\
+  read_at cs 2 2 = [3; 7].
+Proof. vm_compute. repeat split; reflexivity. Qed.
